@@ -227,6 +227,21 @@ def percent_format(template: SSeq, args):
         if spec == "%":
             lit += "%"
             continue
+        zero, width = False, 0
+        if spec == "0" or spec.isdigit():
+            # %05d / %5d: zero flag and a decimal width
+            j = i - 1
+            if t[j] == "0":
+                zero = True
+                j += 1
+            k = j
+            while k < len(t) and t[k].isdigit():
+                k += 1
+            width = int(t[j:k]) if k > j else 0
+            if k >= len(t) or t[k] not in "di":
+                raise Unsupported(f"% format spec {t[i - 2:k + 1]}")
+            spec = t[k]
+            i = k + 1
         if not args:
             raise TypeError("not enough arguments for format string")
         a = args.pop(0)
@@ -244,6 +259,11 @@ def percent_format(template: SSeq, args):
                 piece = piece.freeze()
         elif spec in "di":
             piece = int_to_seq(a, kind) if isinstance(a, SInt) else SSeq.const(("%d" % a) if kind == "str" else b"%d" % a)
+            if width:
+                if zero:
+                    piece = piece.zfill(width)
+                elif piece.clen() < width:
+                    piece = sconcat(SSeq.const(" " * (width - piece.clen()) if kind == "str" else b" " * (width - piece.clen())), piece)
         else:
             raise Unsupported(f"% format spec {spec}")
         out = sconcat(out, piece)
